@@ -324,7 +324,7 @@ class BinTableLists(AbstractBinTable):
     def _any_per_column(self, rows: List[int] = None, columns: List[int] = None) -> Row_DType:
         rows = range(self.height) if rows is None else rows
         if columns is None:
-            vals, columns = range(self.width), [False] * self.width
+            vals, columns = [False] * self.width, range(self.width)
         else:
             vals = [False] * len(columns)
 
@@ -347,7 +347,7 @@ class BinTableLists(AbstractBinTable):
     def _sum_per_column(self, rows: List[int] = None, columns: List[int] = None) -> List[int]:
         rows = range(self.height) if rows is None else rows
         if columns is None:
-            vals, columns = range(self.width), [0] * self.width
+            vals, columns = [0] * self.width, range(self.width)
         else:
             vals = [0] * len(columns)
 
